@@ -1,4 +1,6 @@
 import Martian.Props.C04.Facts
+import Martian.Props.C04.Ends
+import Martian.Props.C04.Lifetime
 import Martian.Lemmas.Tunnel
 /-!
 C04 — blind CONNECT tunnels are byte-transparent both ways and propagate end-of-stream.
@@ -16,13 +18,13 @@ open Martian Martian.Tunnel
 (sent in the same segment as the CONNECT head) followed by everything the client has sent since. -/
 theorem tunnel_transparent_up (cfg : Cfg) (ahead early : Bytes) (up down : List Ev) :
     bytesOf (handleConnect cfg (.ok ahead) early up down).toTarget = early ++ sentBy up := by
-  simp [handleConnect, upPump, run_bytes]
+  simp [handleConnect, handleConnectWith, upPump, run_bytes]
 
 /-- Target → client: after the response head the client has been written exactly the bytes the
 proxy had read ahead with the downstream proxy's head, followed by everything sent since. -/
 theorem tunnel_transparent_down (cfg : Cfg) (ahead early : Bytes) (up down : List Ev) :
     bytesOf (handleConnect cfg (.ok ahead) early up down).toClient = ahead ++ sentBy down := by
-  cases ahead <;> simp [handleConnect, downPump, run_bytes, bytesOf]
+  cases ahead <;> simp [handleConnect, handleConnectWith, downPump, run_bytes]
 
 /-- At every quiescent point neither pump holds a byte it has not written. -/
 theorem nothing_retained_at_quiescence (cfg : Cfg) (early : Bytes) (up down : List Ev) :
@@ -39,77 +41,125 @@ theorem delivery_only_grows (cfg : Cfg) (ahead early : Bytes) (up more down : Li
   | false => exact ⟨sentBy more, by simp [sentBy_append_of_open _ _ h]⟩
   | true => exact ⟨[], by simp [sentBy_append_of_closed _ _ h]⟩
 
+/-- When the client→target copy ends — because the client finished sending, because the client's
+connection broke (reset, deadline) or because the target stopped taking bytes: `copySync` makes no
+difference — the target is told so (CloseWrite) without any further input, exactly once, after every
+byte that was forwarded before; nothing is written after it, and the only thing that may follow is
+the final graceful `Close` once the other direction has ended too. -/
+theorem end_propagates_to_target (cfg : Cfg) (ahead early : Bytes) (up down : List Ev)
+    (h : closes up = true) :
+    ∃ ws : List Bytes,
+      (handleConnect cfg (.ok ahead) early up down).toTarget =
+        ws.map .write ++ [.closeWrite] ++ releaseActs (closes down) .graceful ∧
+      ws.flatten = early ++ sentBy up := by
+  have h' : (endOf up).isSome = true := h
+  cases early with
+  | nil =>
+    refine ⟨writesOf (readerWriteToLoop cfg.target cfg.client) up, ?_, ?_⟩
+    · simp [handleConnect, handleConnectWith, upPump, downPump, run_shape, h', closeActs, optWrite, Pump.finished, closes]
+    · simp [writesOf_flatten]
+  | cons b bs =>
+    refine ⟨(b :: bs) :: writesOf (readerWriteToLoop cfg.target cfg.client) up, ?_, ?_⟩
+    · simp [handleConnect, handleConnectWith, upPump, downPump, run_shape, h', closeActs, optWrite, Pump.finished, closes]
+    · simp [writesOf_flatten]
+
+/-- The same for the target→client copy. -/
+theorem end_propagates_to_client (cfg : Cfg) (ahead early : Bytes) (up down : List Ev)
+    (h : closes down = true) :
+    ∃ ws : List Bytes,
+      (handleConnect cfg (.ok ahead) early up down).toClient =
+        ws.map .write ++ [.closeWrite] ++ releaseActs (closes up) .graceful ∧
+      ws.flatten = ahead ++ sentBy down := by
+  have h' : (endOf down).isSome = true := h
+  cases ahead with
+  | nil =>
+    refine ⟨writesOf (ioCopyLoop cfg.client cfg.target) down, ?_, ?_⟩
+    · simp [handleConnect, handleConnectWith, upPump, downPump, run_shape, h', closeActs, optWrite, Pump.finished, closes]
+    · simp [writesOf_flatten]
+  | cons b bs =>
+    refine ⟨(b :: bs) :: writesOf (ioCopyLoop cfg.client cfg.target) down, ?_, ?_⟩
+    · simp [handleConnect, handleConnectWith, upPump, downPump, run_shape, h', closeActs, optWrite, Pump.finished, closes]
+    · simp [writesOf_flatten]
+
 /-- When the client finishes sending, the target is told so (CloseWrite) without any further input,
 exactly once, and after every byte the client sent before. -/
 theorem eof_propagates_to_target (cfg : Cfg) (ahead early : Bytes) (up down : List Ev)
     (h : Ev.eof ∈ up) :
     ∃ ws : List Bytes,
-      (handleConnect cfg (.ok ahead) early up down).toTarget = ws.map .write ++ [.closeWrite] ∧
-      ws.flatten = early ++ sentBy up := by
-  have hc := (mem_eof_iff_closes up).1 h
-  cases early with
-  | nil =>
-    refine ⟨writesOf (readerWriteToLoop cfg.target cfg.client) up, ?_, ?_⟩
-    · simp [handleConnect, upPump, run_shape, hc, closeActs, optWrite]
-    · simp [writesOf_flatten]
-  | cons b bs =>
-    refine ⟨(b :: bs) :: writesOf (readerWriteToLoop cfg.target cfg.client) up, ?_, ?_⟩
-    · simp [handleConnect, upPump, run_shape, hc, closeActs, optWrite]
-    · simp [writesOf_flatten]
+      (handleConnect cfg (.ok ahead) early up down).toTarget =
+        ws.map .write ++ [.closeWrite] ++ releaseActs (closes down) .graceful ∧
+      ws.flatten = early ++ sentBy up :=
+  end_propagates_to_target cfg ahead early up down (mem_eof_closes up h)
 
 /-- When the target finishes sending, the client is told so without any further input, exactly
 once, and after every byte the target sent before. -/
 theorem eof_propagates_to_client (cfg : Cfg) (ahead early : Bytes) (up down : List Ev)
     (h : Ev.eof ∈ down) :
     ∃ ws : List Bytes,
-      (handleConnect cfg (.ok ahead) early up down).toClient = ws.map .write ++ [.closeWrite] ∧
-      ws.flatten = ahead ++ sentBy down := by
-  have hc := (mem_eof_iff_closes down).1 h
-  cases ahead with
-  | nil =>
-    refine ⟨writesOf (ioCopyLoop cfg.client cfg.target) down, ?_, ?_⟩
-    · simp [handleConnect, downPump, run_shape, hc, closeActs, optWrite]
-    · simp [writesOf_flatten]
-  | cons b bs =>
-    refine ⟨(b :: bs) :: writesOf (ioCopyLoop cfg.client cfg.target) down, ?_, ?_⟩
-    · simp [handleConnect, downPump, run_shape, hc, closeActs, optWrite]
-    · simp [writesOf_flatten]
+      (handleConnect cfg (.ok ahead) early up down).toClient =
+        ws.map .write ++ [.closeWrite] ++ releaseActs (closes up) .graceful ∧
+      ws.flatten = ahead ++ sentBy down :=
+  end_propagates_to_client cfg ahead early up down (mem_eof_closes down h)
 
-/-- No end is told "end of stream" while the other end has not finished sending. -/
+/-- No end is told "end of stream", and no connection is closed, while the copy from the other end
+is still running (the other end has neither finished sending nor broken). -/
 theorem no_spurious_eof (cfg : Cfg) (ahead early : Bytes) (up down : List Ev) :
+    (closes up = false →
+      eofSeen (handleConnect cfg (.ok ahead) early up down).toTarget = false ∧
+      finalClose (handleConnect cfg (.ok ahead) early up down).toTarget = none) ∧
+    (closes down = false →
+      eofSeen (handleConnect cfg (.ok ahead) early up down).toClient = false ∧
+      finalClose (handleConnect cfg (.ok ahead) early up down).toClient = none) := by
+  constructor
+  · intro hc
+    simp [handleConnect, handleConnectWith, upPump, downPump, run_shape, Pump.finished, closes,
+      (show (endOf up).isSome = false from hc)]
+  · intro hc
+    simp [handleConnect, handleConnectWith, upPump, downPump, run_shape, Pump.finished, closes,
+      (show (endOf down).isSome = false from hc)]
+
+/-- On connections that do not break (only data and EOF events) "the copy has ended" is exactly
+"the end finished sending": the statements above then read as in the property text. -/
+theorem no_spurious_eof_clean (cfg : Cfg) (ahead early : Bytes) (up down : List Ev)
+    (hu : ∀ e ∈ up, e.ending = none ∨ e = .eof) (hd : ∀ e ∈ down, e.ending = none ∨ e = .eof) :
     (Ev.eof ∉ up → eofSeen (handleConnect cfg (.ok ahead) early up down).toTarget = false) ∧
     (Ev.eof ∉ down → eofSeen (handleConnect cfg (.ok ahead) early up down).toClient = false) := by
+  have h := no_spurious_eof cfg ahead early up down
   constructor
-  · intro h
-    have hc : closes up = false := by
-      cases hx : closes up with
-      | false => rfl
-      | true => exact absurd ((mem_eof_iff_closes up).2 hx) h
-    cases early <;> simp [handleConnect, upPump, run_shape, hc, closeActs, optWrite, eofSeen]
-  · intro h
-    have hc : closes down = false := by
-      cases hx : closes down with
-      | false => rfl
-      | true => exact absurd ((mem_eof_iff_closes down).2 hx) h
-    cases ahead <;> simp [handleConnect, downPump, run_shape, hc, closeActs, optWrite, eofSeen]
+  · intro hn
+    refine (h.1 ?_).1
+    cases hx : closes up with
+    | false => rfl
+    | true => exact absurd ((closes_iff_mem_eof_of_clean up hu).1 hx) hn
+  · intro hn
+    refine (h.2 ?_).1
+    cases hx : closes down with
+    | false => rfl
+    | true => exact absurd ((closes_iff_mem_eof_of_clean down hd).1 hx) hn
 
 /-- A CONNECT whose dial fails is answered 502 with a Warning header; nothing is tunnelled. -/
 theorem dial_failure_502_warning (cfg : Cfg) (early : Bytes) (up down : List Ev) :
     let o := handleConnect cfg .refused early up down
     o.status = 502 ∧ o.warning = true ∧ o.toTarget = [] ∧ o.toClient = [] := by
-  simp [handleConnect]
+  simp [handleConnect, handleConnectWith]
 
 /-- A CONNECT whose dial succeeds is answered 200 on every path. -/
 theorem dial_success_200 (cfg : Cfg) (ahead early : Bytes) (up down : List Ev) :
     (handleConnect cfg (.ok ahead) early up down).status = 200 := by
-  simp [handleConnect]
+  simp [handleConnect, handleConnectWith]
 
-/-- Both connections are released (handler returns, deferred Close of both) exactly when both ends
-have finished sending — no further input is needed, and no connection is closed while one
-direction is still open. -/
-theorem both_released_iff_both_finished (cfg : Cfg) (ahead early : Bytes) (up down : List Ev) :
+/-- Both connections are released (handler returns, deferred Close of both) exactly when both
+copies have ended (each end finished sending, or its connection broke) — no further input is
+needed, and no connection is closed while one direction is still open. -/
+theorem both_released_iff_both_ended (cfg : Cfg) (ahead early : Bytes) (up down : List Ev) :
+    (handleConnect cfg (.ok ahead) early up down).released = true ↔ (closes up = true ∧ closes down = true) := by
+  simp [handleConnect, handleConnectWith, upPump, downPump, run_shape, Pump.finished, closes]
+
+/-- On connections that do not break: released exactly when both ends have finished sending. -/
+theorem both_released_iff_both_finished (cfg : Cfg) (ahead early : Bytes) (up down : List Ev)
+    (hu : ∀ e ∈ up, e.ending = none ∨ e = .eof) (hd : ∀ e ∈ down, e.ending = none ∨ e = .eof) :
     (handleConnect cfg (.ok ahead) early up down).released = true ↔ (Ev.eof ∈ up ∧ Ev.eof ∈ down) := by
-  simp [handleConnect, upPump, downPump, run_shape, mem_eof_iff_closes]
+  rw [both_released_iff_both_ended, closes_iff_mem_eof_of_clean up hu, closes_iff_mem_eof_of_clean down hd]
 
 /-! ### Regression statements about the previous form of the client-bound pump
 (`io.Copy(brw, cconn)` on a client connection that is not an `io.ReaderFrom`) -/
@@ -117,13 +167,14 @@ theorem both_released_iff_both_finished (cfg : Cfg) (ahead early : Bytes) (up do
 /-- Whatever the target writes stays in the 4096-byte `bufio.Writer` as long as less than 4096 bytes
 have accumulated: nothing reaches the client at quiescence. -/
 theorem legacy_buffered_pump_retains (bs : Bytes) (h : bs.length < 4096) :
-    bytesOf (Legacy.bufferedRun 4096 ⟨[], false⟩ [.data bs]).2 = [] ∧
-    (Legacy.bufferedRun 4096 ⟨[], false⟩ [.data bs]).1.held = bs := by
-  simp [Legacy.bufferedRun, Legacy.bufferedStep, Nat.div_eq_of_lt h, bytesOf]
+    bytesOf (Legacy.bufferedRun 4096 (.fresh []) [.data bs]).2 = [] ∧
+    (Legacy.bufferedRun 4096 (.fresh []) [.data bs]).1.held = bs := by
+  simp [Legacy.bufferedRun, Legacy.bufferedStep, Pump.fresh, Pump.finished, Ev.ending, Ev.accepted,
+    Nat.div_eq_of_lt h, bytesOf]
 
 /-- Concrete witness (test): the target writes 10 bytes and keeps the tunnel open. -/
 theorem legacy_buffered_pump_counterexample :
-    bytesOf (Legacy.bufferedRun 4096 ⟨[], false⟩ [.data (List.replicate 10 7)]).2 ≠ List.replicate 10 7 := by
+    bytesOf (Legacy.bufferedRun 4096 (.fresh []) [.data (List.replicate 10 7)]).2 ≠ List.replicate 10 7 := by
   decide
 
 /-! ### Non-vacuity -/
@@ -141,6 +192,7 @@ example :
     bytesOf o.toTarget = [1, 2, 3] ∧ eofSeen o.toTarget = true ∧
     bytesOf o.toClient = [9, 4, 5] ∧ eofSeen o.toClient = false ∧ o.released = false := by
   simp [tunnel_transparent_up, tunnel_transparent_down, sentBy]
-  simp [handleConnect, upPump, downPump, run_shape, closes, closeActs, optWrite, eofSeen, writesOf]
+  simp [handleConnect, handleConnectWith, upPump, downPump, run_shape, closes, endOf, Ev.ending, Ev.accepted,
+    closeActs, optWrite, eofSeen, writesOf, releaseActs, Pump.finished]
 
 end Martian.Props.C04
